@@ -38,7 +38,7 @@ import time
 import types
 
 STREAMS = ['bytes-helpers', 'spec-table', 'scripted-exhaustive', 'scripted-random', 'scripted-boundary',
-           'scripted-malformed', 'real-mechs', 'real-interleaved', 'real-overlapping']
+           'scripted-malformed', 'real-mechs', 'real-interleaved', 'real-overlapping', 'config-sequences']
 THEOREMS = ['authenticated_only_after_accept', 'refines_spec_server', 'authenticated_iff_spec',
             'mechanism_consulted_iff_table_asks', 'real_mechanisms_never_raise', 'closes_exactly_when',
             'no_line_processed_after_close', 'conforming_client_accepted', 'conforming_client_accepted_from',
@@ -315,9 +315,20 @@ def _build_classes():
         return HProto
     I['proto_scripted'] = mk_proto(mk_auth(stable))
     I['proto_real'] = mk_proto(mk_auth(rtable))
+    I['restricted'] = {}
+
+    def restricted(mode, names):
+        """A protocol class whose authenticator subclass offers only `names` (the documented `authenticators`
+        attribute restricted, order kept): another bus configuration living in the same process."""
+        key = (mode, tuple(names))
+        if key not in I['restricted']:
+            base = stable if mode == 'scripted' else rtable
+            I['restricted'][key] = mk_proto(mk_auth({n: base[n] for n in base if n in names}))
+        return I['restricted'][key]
+    I['restricted_proto'] = restricted
 
 
-def make_session(mode, script=None, env=None, strict_script=False):
+def make_session(mode, script=None, env=None, strict_script=False, offer=None):
     """Build a BusProtocol on a StringTransport.  mode 'scripted': mechanisms pop `script`;
     mode 'real': the real mechanism classes, wrapped only to record outcomes."""
     I = impl()
@@ -325,7 +336,10 @@ def make_session(mode, script=None, env=None, strict_script=False):
         _build_classes()
     tr = Trace()
     _Cur.tr, _Cur.script, _Cur.strict = tr, list(script or []), strict_script
-    proto = I['proto_scripted' if mode == 'scripted' else 'proto_real']()
+    if offer is not None:
+        proto = I['restricted_proto'](mode, offer)()
+    else:
+        proto = I['proto_scripted' if mode == 'scripted' else 'proto_real']()
     _Cur.proto = proto
     proto.factory = _Factory
     t = I['StringTransport']()
@@ -1627,6 +1641,59 @@ def judge_interleaved(ctx, rng):
         ctx.stat('interleaved: cross=%s' % cross)
 
 
+def judge_config_sequences(ctx, rng):
+    """Connections served one after the other IN ONE PROCESS by buses with different authenticator configurations
+    (the default table; subclasses restricting `authenticators`), in both orders.  Each connection is judged by the
+    same oracle with ITS bus's offered list: only a mechanism that bus offers may be stepped or accepted, REJECTED
+    carries that bus's list.  Implementation only (the model has one configuration)."""
+    names = offered_names()
+    subsets = [None] + [[n] for n in names] + ([names[:2]] if len(names) > 2 else [])
+    convs = [[b'AUTH ' + n, b'BEGIN'] for n in names] + [[b'AUTH ' + n, b'DATA', b'BEGIN'] for n in names[:1]]
+    plans = []
+    for c1 in subsets:
+        for c2 in subsets:
+            if c1 != c2:
+                for conv in convs:
+                    plans.append([(c1, conv), (c2, conv)])
+    for _ in range(ctx.scale(quick=30, thorough=600)):
+        plans.append([(rng.choice(subsets), rng.choice(convs)) for _ in range(rng.randint(2, 4))])
+    for mode in ('scripted', 'real'):
+        for plan in plans:
+            judge_config_plan(ctx, mode, plan)
+    ctx.stat('config-sequences: plans=%d' % (2 * len(plans)))
+
+
+def judge_config_plan(ctx, mode, plan):
+    names = offered_names()
+    case = None
+    if True:
+        if True:
+            for k, (cfg, conv) in enumerate(plan):
+                offered = list(names) if cfg is None else [n for n in names if n in cfg]
+                stream = b'\0' + b''.join(l + b'\r\n' for l in conv)
+                case = {'kind': 'config-sequence', 'mode': mode, 'position': k,
+                        'plan': [[None if c is None else [x.decode() for x in c], [hx(l) for l in cv]] for c, cv in plan]}
+                if mode == 'scripted':
+                    proto, t, tr = make_session('scripted', script=['A', 'A', 'A'], offer=cfg)
+                    crashed = feed(proto, t, [stream])
+                    attach_replies(tr, t)
+                    obs = observe(proto, t, tr, crashed)
+                else:
+                    spec = {'creds': 1000, 'creds_gid': 77, 'users': USERS, 'dirs': {'h1': 'absent', 'h2': 'absent'},
+                            'files': {}, 'frac': False}
+                    with RealEnv(spec):
+                        proto, t, tr = make_session('real', env={'creds_tuple': (4242, 1000, 77)}, offer=cfg)
+                        crashed = feed(proto, t, [stream])
+                        attach_replies(tr, t)
+                        obs = observe(proto, t, tr, crashed)
+                ctx.impl_trace()
+                for key, what, observed, expected in oracle(stream, obs, tr, crashed, offered, REJECT_LIMIT,
+                                                            b'REJECTED ' + b' '.join(offered)):
+                    report(ctx, key, 'bus configuration %s, connection %d of a sequence in one process: %s'
+                           % ('default' if cfg is None else b'+'.join(cfg).decode(), k + 1, what), case, observed, expected)
+            ctx.case('config-sequences', sample=case)
+
+
 SCHEDULES = [
     # A gets 1, B gets 2, A completes, C re-uses 1 (file order 2,1), D must not be handed B's id 2 again
     'a0 a1 r0 b0 a2 a3 r1 b1 r3 b3 r2 b2',
@@ -1744,7 +1811,11 @@ def is_second_step(tr, k):
 # ===================================================================== corpus / replay / run
 
 def run_case(ctx, case, pending, stream_name='corpus'):
-    if case.get('kind') == 'overlapping':
+    if case.get('kind') == 'config-sequence':
+        plan = [(None if c is None else [x.encode() for x in c], [binascii.unhexlify(l) if l != '-' else b'' for l in cv])
+                for c, cv in case['plan']]
+        judge_config_plan(ctx, case['mode'], plan)
+    elif case.get('kind') == 'overlapping':
         judge_overlapping(ctx, case['schedule'], case['users'], case.get('dir', 'absent'), case.get('frac', False))
     elif case.get('kind') == 'interleaved':
         ctx.note('interleaved cases are generated from the seed; re-run the check with the same VERIF_SEED')
@@ -1827,6 +1898,7 @@ def run(ctx):
     flush_model(ctx, pending)
     for _ in range(ctx.scale(quick=60, thorough=1000)):
         judge_interleaved(ctx, rng)
+    judge_config_sequences(ctx, rng)
     for sched in SCHEDULES:
         for users in (['alice'], ['alice', '7'], ['1000', 'alice', '7']):
             judge_overlapping(ctx, sched, users, 'absent', False)
